@@ -2,6 +2,9 @@
 C11 — Resume retransmits in original order, with original id and content (state-machine part:
 what `clean()` returns and what a replayed request puts on the wire; that `poll()` writes
 `pending` before any request queued afterwards belongs to the `cloop` slice).
+
+`MqttState` stamps every publish it stores with a running send counter and `clean()` sorts by that
+stamp, so the order no longer depends on which ids are in use or on the order of acknowledgements.
 -/
 import Proofs.Lemmas.ClientTheorems
 namespace C11
@@ -13,79 +16,108 @@ def runWrap : List LOp :=
   [.user (.publish 1 1), .user (.publish 1 2), .user (.publish 1 3), .inc (.puback 1 0), .user (.publish 1 4),
    .inc (.puback 2 0), .inc (.puback 3 0), .user (.publish 1 5), .user (.publish 1 6), .fail, .pend, .pend, .pend,
    .inc (.puback 1 0), .user (.publish 1 7), .inc (.puback 2 0), .inc (.puback 3 0), .user (.publish 1 8)]
-/-- #19: max = 2: A(1); PUBACK 1; SUBSCRIBE takes id 2; B(1); C(2) — `clean()` lists C before B -/
+/-- max = 2: A(1); PUBACK 1; SUBSCRIBE takes id 2; B(1); C(2) (formerly #19: `clean()` listed C before B) -/
 def run19 : List LOp :=
   [.user (.publish 1 1), .inc (.puback 1 0), .user (.subscribe 1), .user (.publish 1 2), .user (.publish 1 3)]
-/-- #23: max = 3: 1,2,3; PUBACK 1, 2; D(1); failure; session not resumed (pending dropped); E(2), F(3) —
-    `clean()` lists F before E -/
+/-- max = 3: 1,2,3; PUBACK 1, 2; D(1); failure; session not resumed (pending dropped); E(2), F(3)
+    (formerly #23: `clean()` listed F before E) -/
 def run23 : List LOp :=
   [.user (.publish 1 1), .user (.publish 1 2), .user (.publish 1 3), .inc (.puback 1 0), .inc (.puback 2 0),
    .user (.publish 1 4), .fail, .newSession, .user (.publish 1 5), .user (.publish 1 6)]
+/-- acknowledgements out of order and a QoS 2 flow in between: B(2) acked first, then A(1) received -/
+def runAny : List LOp :=
+  [.user (.publish 2 1), .user (.publish 1 2), .user (.publish 1 3), .inc (.puback 2 0), .user (.publish 1 4),
+   .inc (.pubrec 1 0), .user (.publish 1 5)]
 
-/-- C11.1 clean_order_v4: in the MQTT 3.1.1 client, as long as the broker acknowledged the QoS 1
-    publishes in the order they were sent (the monitor's `inOrder` flag: only QoS ≤ 1 publishes
-    sent, every PUBACK was for the oldest unacknowledged id, no PUBREC/PUBCOMP, no failure while a
-    previous `pending` was still being replayed), `clean()` returns the unacknowledged publishes
-    in the order they were originally sent — across id wrap-around, at every point of every run,
-    every `max` — provided no SUBSCRIBE/UNSUBSCRIBE consumed a packet id (#19) and no pending
-    publish was dropped by a session that was not resumed (#23). Cyclic-interval invariant:
-    `OInv` (the unacknowledged ids are `idAt max last_puback 1..k`). -/
-theorem clean_order_v4_partial (max : Nat) (m : Bool) (h1 : 1 ≤ max) (h2 : max ≤ u16Max) (ops : List LOp)
-    (hn : Avoids c11Trigger (LState.new .v4 max m) ops) :
+/-- C11.1 clean_order_v4 (full strength: every `max`, every op sequence of the loop, manual acks
+    on/off): in the MQTT 3.1.1 client, as long as the broker acknowledged the QoS 1 publishes in the
+    order they were sent (the monitor's `inOrder` flag: only QoS ≤ 1 publishes sent, every PUBACK was
+    for the oldest unacknowledged id, no PUBREC/PUBCOMP), `clean()` returns the unacknowledged
+    publishes in the order they were originally sent — across id wrap-around, SUBSCRIBE /
+    UNSUBSCRIBE in between, sessions that were not resumed, failures during a replay -/
+theorem clean_order_v4 (max : Nat) (m : Bool) (h1 : 1 ≤ max) (h2 : max ≤ u16Max) (ops : List LOp) :
     Along (fun _ _ o _ g' => C11.order g' o = true) (LState.new .v4 max m) (Ghost.init .v4 max m) ops := by
-  apply along_of_inv' B11 (fun l op => ¬ c11Trigger l op) B11.step _ _ _ _ _ (B11.new max m h1 h2) hn.not_not
-  intro l g op o _ _ _ hi'
-  exact C11_order_ok hi' o (step_fields g o).1.symm
+  apply along_of_inv' (fun l g => l.st.ver = .v4 ∧ B1 l g) (fun l op => ¬ unsafeConnack l op) _ _ _ _ _ _
+    ⟨rfl, B1.new .v4 max m h1 h2⟩ (avoids_unsafe_v4 _ rfl ops).not_not
+  · intro l g op hi hok
+    have hv' := (lstep_ver l op).trans hi.1
+    have hb := hi.2.step l g op hok
+    cases ho : (lstep l op).2 with
+    | none => rw [ho] at hb; exact ⟨hv', hb⟩
+    | some o => rw [ho] at hb; exact ⟨hv', hb⟩
+  · intro l g op o _ _ _ hi'
+    exact C11_order_ok hi'.1 hi'.2 o (step_fields g o).1.symm
 
-/-- the clause as stated (in-order acks alone) is false (#19): a SUBSCRIBE in between shifts the ids -/
-theorem clean_order_v4_fails_subscribe :
-    ¬ Along (fun _ _ o _ g' => C11.order g' o = true) (LState.new .v4 2 false) (Ghost.init .v4 2 false) run19 := by
-  rw [along_iff_alongB (fun _ o g' => C11.order g' o)]; decide
+/-- C11.1+ (full strength) the same without any assumption on the acknowledgements (any order,
+    QoS 2 flows in between): at every step the stored publishes `clean()` would return are exactly
+    the publishes on the wire without PUBACK / PUBREC, in the order in which they were put there -/
+theorem clean_order_any_acks_v4 (max : Nat) (m : Bool) (h1 : 1 ≤ max) (h2 : max ≤ u16Max) (ops : List LOp) :
+    Along (fun _ _ o _ g' => pubIds (sentPubs o.view) = g'.unacked.map (·.1) ∧ pubTags (sentPubs o.view) = g'.unacked.map (·.2))
+      (LState.new .v4 max m) (Ghost.init .v4 max m) ops := by
+  apply along_of_inv' (fun l g => l.st.ver = .v4 ∧ B1 l g) (fun l op => ¬ unsafeConnack l op) _ _ _ _ _ _
+    ⟨rfl, B1.new .v4 max m h1 h2⟩ (avoids_unsafe_v4 _ rfl ops).not_not
+  · intro l g op hi hok
+    have hv' := (lstep_ver l op).trans hi.1
+    have hb := hi.2.step l g op hok
+    cases ho : (lstep l op).2 with
+    | none => rw [ho] at hb; exact ⟨hv', hb⟩
+    | some o => rw [ho] at hb; exact ⟨hv', hb⟩
+  · intro l g op o hi hok ho hi'
+    have := clean_order_state hi'.1 hi'.2
+    rw [← hi'.2.g0.view] at this
+    exact this
 
-/-- … and (#23): `last_puback` is stale after a session that was not resumed -/
-theorem clean_order_v4_fails_new_session :
-    ¬ Along (fun _ _ o _ g' => C11.order g' o = true) (LState.new .v4 3 false) (Ghost.init .v4 3 false) run23 := by
-  rw [along_iff_alongB (fun _ o g' => C11.order g' o)]; decide
+/-- C11.2 (full strength, both versions) a failure keeps the order: what `state.clean()` returns
+    goes in front of what was still waiting in `pending` (it was sent, or re-sent, earlier), and
+    the publish that was parked on a collision — never sent — comes last -/
+theorem failure_keeps_order (s : State) (pd : List Request) :
+    (lstep ⟨s, pd⟩ .fail).1.pending = cleanPubs s ++ (relOnes s).map Request.pubrel ++ cleanParked s ++ pd := by
+  simp [lstep, lop?, lpending, sstepObs, cleanPanics, mkObs, cleanRequests]
 
-/-- C11.3 original_id_and_content (full strength for both versions apart from #17): a request
-    returned by `clean()` and replayed goes to the wire as the same publish — same id, QoS, content -/
-theorem original_id_and_content_partial (ver : Version) (max : Nat) (m : Bool) (h1 : 1 ≤ max) (h2 : max ≤ u16Max)
-    (ops : List LOp) (hn : Avoids unsafeConnack (LState.new ver max m) ops) :
+/-- C11.3 original_id_and_content (full strength, both versions, every state of the loop): a
+    numbered request returned by `clean()` and replayed goes to the wire as the same publish — same
+    id, QoS, content -/
+theorem original_id_and_content (ver : Version) (max : Nat) (m : Bool) (ops : List LOp) :
     Along (fun _ _ o _ _ => C11.retransmitSame o = true) (LState.new ver max m) (Ghost.init ver max m) ops := by
-  apply along_of_inv' B0 (fun l op => ¬ unsafeConnack l op) B0.step _ _ _ _ _ (B0.new ver max m h1 h2) hn.not_not
-  intro l g op o hi _ ho _
-  exact C11_retransmit_ok hi.inv0 op o ho
+  generalize LState.new ver max m = l
+  generalize Ghost.init ver max m = g
+  induction ops generalizing l g with
+  | nil => trivial
+  | cons op ops ih =>
+    simp only [Along]
+    cases ho : (lstep l op).2 with
+    | none => exact ih _ _
+    | some o => exact ⟨C11_retransmit_ok op o ho, ih _ _⟩
 
-theorem original_id_and_content_v4 (max : Nat) (m : Bool) (h1 : 1 ≤ max) (h2 : max ≤ u16Max) (ops : List LOp) :
-    Along (fun _ _ o _ _ => C11.retransmitSame o = true) (LState.new .v4 max m) (Ghost.init .v4 max m) ops :=
-  original_id_and_content_partial .v4 max m h1 h2 ops (avoids_unsafe_v4 _ rfl ops)
+/-- what `clean()` returns is what is stored: every returned request is a stored publish with its
+    id, a pending release, or the publish that was parked on a collision (unnumbered) -/
+theorem clean_returns_stored (s : State) (hs : SInv s) (r : Request) (h : r ∈ cleanRequests s) :
+    (∃ p, r = .publish p ∧ some p ∈ s.outgoingPub) ∨ (∃ i, r = .pubrel i ∧ relContains s i = true) ∨
+      (∃ c, s.collision = some c ∧ r = .publish { c with pkid := 0 }) :=
+  (mem_cleanRequests hs r).mp h
 
-/-- what `clean()` returns is what is stored: same publishes (C02.clean_moves_everything gives
-    "exactly what a clone showed"); here: every returned publish is a stored one with its id -/
-theorem clean_returns_stored (s : State) (r : Request) (h : r ∈ cleanRequests s) :
-    (∃ p, r = .publish p ∧ some p ∈ s.outgoingPub) ∨ (∃ i, r = .pubrel i ∧ relContains s i = true) :=
-  (mem_cleanRequests s r).mp h
-
-/-- the loop's `clean` puts what the state held AFTER what was still pending: a second failure
-    before `pending` is drained therefore reorders the retransmissions (observation for the
-    `cloop` slice; this is why the monitor's in-order flag is dropped on a nested failure) -/
-theorem nested_failure_reorders :
+/-- a second failure before `pending` is drained keeps the original order (regression: with the
+    loop order of before — `pending ++ state.clean()` — this was `[2, 1]`) -/
+theorem nested_failure_keeps_order :
     pubIds (lrun (LState.new .v4 3 false)
-      [.user (.publish 1 1), .user (.publish 1 2), .fail, .pend, .fail]).pending = [2, 1] := by decide
+      [.user (.publish 1 1), .user (.publish 1 2), .fail, .pend, .fail]).pending = [1, 2] := by decide
 
-/-- the executable monitor `C11.check` accepts every v4 model trace that avoids #19 and #23 -/
-theorem monitor_passes_partial (max : Nat) (m : Bool) (h1 : 1 ≤ max) (h2 : max ≤ u16Max) (ops : List LOp)
-    (hn : Avoids c11Trigger (LState.new .v4 max m) ops) :
+/-- the executable monitor `C11.check` accepts every trace of the MQTT 3.1.1 model (full strength) -/
+theorem monitor_passes_v4 (max : Nat) (m : Bool) (h1 : 1 ≤ max) (h2 : max ≤ u16Max) (ops : List LOp) :
     C11.check (Ghost.init .v4 max m) (ltrace (LState.new .v4 max m) ops) = .ok :=
-  runChecks_ok _ _ _ _ _ _ (c11_checks_along max m h1 h2 ops hn)
+  runChecks_ok _ _ _ _ _ _ (c11_checks_along max m h1 h2 ops)
 
-/-! non-vacuity: the hypothesis is met by a run with wrap-around, a failure with a full window and
-    replay, and the in-order flag is still set at its end -/
-example : Avoids c11Trigger (LState.new .v4 3 false) runWrap := by decide
+/-! regression examples: the runs on which the order clause used to fail, and the order itself -/
+example : C11.check (Ghost.init .v4 2 false) (ltrace (LState.new .v4 2 false) run19) = .ok := by decide
+example : C11.check (Ghost.init .v4 3 false) (ltrace (LState.new .v4 3 false) run23) = .ok := by decide
+example : pubTags (cleanRequests (lrun (LState.new .v4 2 false) run19).st) = [2, 3] := by decide
+example : pubTags (cleanRequests (lrun (LState.new .v4 3 false) run23).st) = [5, 6] := by decide
+example : pubTags (cleanRequests (lrun (LState.new .v4 3 false) runAny).st) = [3, 4] := by decide
+
+/-! non-vacuity: a run with wrap-around, a failure with a full window and replay keeps the in-order
+    flag to its end -/
 example : alongB (fun _ _ g' => g'.inOrder && g'.gated) (LState.new .v4 3 false) (Ghost.init .v4 3 false) runWrap = true := by
   decide
 example : pubIds (cleanRequests (lrun (LState.new .v4 3 false) (runWrap.take 5)).st) = [2, 3, 1] := by decide
-example : ¬ Avoids subConsumesId (LState.new .v4 2 false) run19 := by decide
-example : ¬ Avoids dropsPending (LState.new .v4 3 false) run23 := by decide
 
 end C11
